@@ -398,6 +398,21 @@ fn decode_history<F: Family>(input: &Input, ctx: &mut Ctx) -> CaseResult {
     let mut t = Tape::new(input.tape());
     let n = 2 + t.pick(5);
     let mut abandoned = 0;
+    // one history in sixty-four starts with connections that announce the largest possible packet and then stall: six
+    // poll decodes are abandoned (state and reader dropped) right after a five-byte header declaring 268,435,455 body
+    // bytes - whatever the decoder reserved for them goes away with the state, and later packets decode as usual
+    if t.chance(1, 64) {
+        for k in 0..6u8 {
+            let hdr = [0x30 | (k & 1), 0xFF, 0xFF, 0xFF, 0x7F, 0x00];
+            let steps = [Step::Chunk(5), Step::Pending, Step::Pending, Step::Pending];
+            let mut rd = ScriptedReader::new(&hdr[..5 + (k as usize % 2)], &steps);
+            let mut state: GenericPollPacketState<F::Header> = GenericPollPacketState::default();
+            let r = sio::poll_n(GenericPollPacket::new(&mut state, &mut rd), 2);
+            ensure!(r.is_none(), "poll decoder finished after a bare header that declares 268,435,455 body bytes: {:?}", r.map(|x| x.map(|y| y.0)));
+        }
+        abandoned += 6;
+        ctx.label("abandoned-maximal-declared-lengths");
+    }
     for i in 0..n {
         let cfg = if t.chance(1, 8) { GenCfg::MEDIUM } else { GenCfg::SMALL };
         let p = F::gen(&mut t, &cfg).map_err(|e| Violation::new(e.0))?;
@@ -497,6 +512,7 @@ pub fn run(env: &mut Env) -> RunResult {
     env.require("c08.sized.v3", "wide-header-frame");
     env.require("c08.sized.v5", "wide-header-frame");
     env.run_tapes(SUB_DH3, n / 4, 400)?;
+    env.require("c08.history.v3", "abandoned-maximal-declared-lengths");
     env.run_tapes(SUB_DH5, n / 4, 600)?;
     env.require("c08.history.v3", "complete-after-abandon");
     env.require("c08.history.v5", "complete-after-abandon");
